@@ -117,43 +117,62 @@ func c04Materialise(p *Prog, r *Report) {
 				return
 			}
 			m++
-			_, fld, base, ok := fieldOf(loadAddr(c.Call.Args[0]))
+			// the tree may be held in a local or captured by the Walk callback: resolve to its definition
+			resolve := func(v ssa.Value, f *ssa.Function) ssa.Value {
+				src := v
+				for d := 0; d < 8; d++ {
+					switch x := src.(type) {
+					case *ssa.UnOp:
+						if x.Op == token.MUL {
+							switch y := x.X.(type) {
+							case *ssa.Alloc:
+								ss := storesTo(y)
+								if len(ss) == 1 {
+									src = ss[0]
+									continue
+								}
+							case *ssa.FreeVar:
+								bound := ssa.Value(nil)
+								if f == nil {
+									return src
+								}
+								if par := f.Parent(); par != nil {
+									forEachInstr(par, func(_ *ssa.BasicBlock, _ int, in2 ssa.Instruction) {
+										if mc, ok := in2.(*ssa.MakeClosure); ok && mc.Fn == ssa.Value(f) {
+											for i, fv := range f.FreeVars {
+												if fv == y {
+													bound = mc.Bindings[i]
+												}
+											}
+										}
+									})
+									if al, ok := bound.(*ssa.Alloc); ok {
+										ss := storesTo(al)
+										if len(ss) == 1 {
+											src = ss[0]
+											f = par
+											continue
+										}
+									}
+								}
+							}
+						}
+					}
+					break
+				}
+				return src
+			}
+			tree := resolve(c.Call.Args[0], f)
+			_, fld, base, ok := fieldOf(loadAddr(tree))
 			if !ok || fld != "fileNodeTree" {
 				okAll = false
 				return
 			}
-			// base: load of the local / captured variable holding chainLayers[len-1]
-			src := base
-			for d := 0; d < 6; d++ {
-				switch x := src.(type) {
-				case *ssa.UnOp:
-					src = x.X
-					continue
-				case *ssa.FreeVar:
-					// captured variable of the enclosing function: find its binding
-					if par := f.Parent(); par != nil {
-						forEachInstr(par, func(_ *ssa.BasicBlock, _ int, in2 ssa.Instruction) {
-							if mc, ok := in2.(*ssa.MakeClosure); ok && mc.Fn == ssa.Value(f) {
-								for i, fv := range f.FreeVars {
-									if fv == x {
-										src = mc.Bindings[i]
-									}
-								}
-							}
-						})
-					}
-					if _, still := src.(*ssa.FreeVar); still {
-						d = 6
-					}
-					continue
-				case *ssa.Alloc:
-					ss := storesTo(x)
-					if len(ss) == 1 {
-						src = ss[0]
-						continue
-					}
+			src := resolve(base, f)
+			if u, ok := src.(*ssa.UnOp); ok && u.Op == token.MUL {
+				if _, isIA := u.X.(*ssa.IndexAddr); !isIA {
+					src = resolve(src, f.Parent())
 				}
-				break
 			}
 			ia, isIA := src.(*ssa.IndexAddr)
 			if !isIA {
